@@ -238,10 +238,11 @@ fn c10_block_values_fixedstep() {
 
 // @harness c03_query_end_to_end
 // @props C03 C10
-// @tier quick
+// @tier thorough
 // @kind core
 // @timeout 2400
 // @mem 24
+// @rss 12
 // @fs 16384
 // @sub src/bbi/bbiread.rs ::: use bytes::{Buf, BytesMut}; ::: use crate::verif_support::bbuf::BytesMut; ||| src/bbi/bigwigread.rs ::: use bytes::{Buf, BytesMut}; ::: use crate::verif_support::bbuf::BytesMut;
 // @functions the body of BigWigRead::get_interval, statement by statement (the iterator is built in place, see the comment in the harness): BBIFileInfo::chrom_id, full_data_cir_tree + read_cir_tree_header, search_cir_tree / search_cir_tree_inner / CirTreeBlockSearchIter, read_node, nodes_overlapping, read_block_data (uncompressed), bigwigread::get_block_values (bedGraph section), BigWigIntervalIter::next - over an in-memory file (ScriptedFile, see its comment: requested node offset and block location are asserted against the file's layout); bytes::BytesMut replaced by the model verif_support::bbuf in both files
